@@ -142,6 +142,16 @@ if want("gro"):
         check(g, "ordinary ranges", np.allclose(d.atcoords, pos * NM, rtol=1e-6) and np.allclose(np.diag(d.cellvecs), np.array([3.0, 4.0, 5.0]) * NM, rtol=1e-6), "values differ")
     except Exception as exc:
         check(g, "ordinary ranges", False, repr(exc))
+    # triclinic box: nine numbers in the order v1(x) v2(y) v3(z) v1(y) v1(z) v2(x) v2(z) v3(x) v3(y) (GROMACS manual);
+    # cellvecs holds one vector per row
+    g3 = group("gro-triclinic", "Gromos87 box line with nine numbers (triclinic cell)")
+    open(fn, "w").write(gro_file(pos, vel, [5.0, 6.0, 7.0, 0.0, 0.0, 1.0, 0.0, 2.0, 3.0]))
+    try:
+        d = load_one(fn)
+        want_cell = np.array([[5.0, 0.0, 0.0], [1.0, 6.0, 0.0], [2.0, 3.0, 7.0]]) * NM
+        check(g3, "v1=(5,0,0) v2=(1,6,0) v3=(2,3,7) nm", np.allclose(d.cellvecs, want_cell, rtol=1e-6, atol=1e-9), f"loaded rows (nm): {(d.cellvecs / NM).round(3).tolist()}")
+    except Exception as exc:
+        check(g3, "triclinic box", False, repr(exc))
     g2 = group("gro-wide", "Gromos87 with x <= -10 nm or >= 100 nm (the 8-column x field uses its first two columns)")
     for x0 in (-12.345, 123.456, -100.001):
         pos2 = pos.copy()
@@ -152,6 +162,27 @@ if want("gro"):
             check(g2, f"x={x0}", np.allclose(d.atcoords, pos2 * NM, rtol=1e-6), f"loaded x = {d.atcoords[3, 0] / NM:.3f} nm")
         except Exception as exc:
             check(g2, f"x={x0}", False, repr(exc))
+
+# ---------------------------------------------------------------------------------------------- MOL2 (Tripos)
+if want("mol2"):
+    g = group("mol2", "Tripos MOL2 ATOM records `id name x y z type subst_id subst_name charge [status_bit]`, BOND records `id a b type`; with and without the optional status bit")
+    for status in (False, True):
+        charges = [-0.834, 0.417, 0.417, 0.1]
+        names, types, z = ["O1", "H1", "H2", "C1"], ["O.3", "H", "H", "C.3"], [8, 1, 1, 6]
+        xyz = rng.uniform(-5, 5, size=(4, 3)).round(4)
+        lines = ["@<TRIPOS>MOLECULE", "probe", "    4     3     1     0     0", "SMALL", "USER_CHARGES", "", "@<TRIPOS>ATOM"]
+        for i in range(4):
+            st = (" WATER" if i < 2 else "") if status else ""
+            lines.append(f"{i + 1:7d} {names[i]:<8s}{xyz[i, 0]:10.4f}{xyz[i, 1]:10.4f}{xyz[i, 2]:10.4f} {types[i]:<6s}{1:5d} RES1   {charges[i]:10.4f}{st}")
+        lines += ["@<TRIPOS>BOND", "     1     1     2 1", "     2     1     3 1", "     3     1     4 ar"]
+        fn = os.path.join(tmp, "t.mol2")
+        open(fn, "w").write("\n".join(lines) + "\n")
+        try:
+            d = load_one(fn)
+            ok = list(d.atnums) == z and np.allclose(d.atcoords, xyz * ANG, atol=1e-6) and np.allclose(d.atcharges["mol2charges"], charges) and list(d.atffparams["attypes"]) == types and [tuple(b[:2]) for b in d.bonds] == [(0, 1), (0, 2), (0, 3)]
+            check(g, f"status bit column present on some atoms: {status}", ok, f"charges {d.atcharges['mol2charges'].tolist()} expected {charges}; atnums {d.atnums.tolist()}")
+        except Exception as exc:
+            check(g, f"status bit: {status}", False, repr(exc))
 
 # ---------------------------------------------------------------------------------------------- XYZ
 if want("xyz"):
